@@ -14,6 +14,7 @@ import (
 	"sync"
 
 	"czcheck/an"
+	"czcheck/props"
 )
 
 // A mutant is a small source change of the target that must make a named
@@ -43,6 +44,7 @@ type mutantResult struct {
 	Applied  bool     `json:"applied"`
 	Error    string   `json:"error,omitempty"`
 	Flagged  []string `json:"flagged"` // property.rule pairs with a new violated/undecided obligation
+	Shared   []string `json:"shared"`  // "Cxx<-Cyy.Rn": new violated obligations also reported under Cxx (props.Shares)
 	Killed   bool     `json:"killed"`
 	ByExpect []string `json:"by_expected"`
 }
@@ -212,8 +214,20 @@ func runMutant(repo string, m mutant, known *an.KnownFindings, cacheDir string) 
 			seen[k] = true
 			r.Flagged = append(r.Flagged, k)
 		}
+		if o.Status == an.Violated {
+			for _, pr := range props.All() {
+				if props.SharedTo(o, pr.ID) != nil {
+					sk := pr.ID + "<-" + k
+					if !seen[sk] {
+						seen[sk] = true
+						r.Shared = append(r.Shared, sk)
+					}
+				}
+			}
+		}
 	}
 	sort.Strings(r.Flagged)
+	sort.Strings(r.Shared)
 	r.judge()
 	if cf != "" {
 		an.WriteJSON(cf, r)
@@ -224,14 +238,27 @@ func runMutant(repo string, m mutant, known *an.KnownFindings, cacheDir string) 
 func (r *mutantResult) judge() {
 	// the mutant description may have changed since the result was cached
 	r.ByExpect = nil
-	for _, f := range r.Flagged {
-		for _, e := range r.Mutant.Expect {
-			if strings.HasPrefix(f, e+".") || strings.HasPrefix(f, "analysis-error") {
-				r.ByExpect = append(r.ByExpect, f)
-			}
-		}
+	for _, e := range r.Mutant.Expect {
+		r.ByExpect = append(r.ByExpect, r.reportedBy(e)...)
 	}
 	r.Killed = len(r.ByExpect) > 0
+}
+
+// reportedBy lists what the check of property e reports for the mutant: its own rules and the
+// sibling rules shared with it.
+func (r *mutantResult) reportedBy(e string) []string {
+	var out []string
+	for _, f := range r.Flagged {
+		if strings.HasPrefix(f, e+".") || strings.HasPrefix(f, "analysis-error") {
+			out = append(out, f)
+		}
+	}
+	for _, f := range r.Shared {
+		if strings.HasPrefix(f, e+"<-") {
+			out = append(out, f)
+		}
+	}
+	return out
 }
 
 // runMutants runs the given mutants (4 at a time) against repo.
